@@ -124,6 +124,48 @@ def run(tier, seed, only=None):
 
                 run_obligations(rep, tag + " closed form", obs, timeout, levels=(1, 2), replay=rp, relate=[], relate_assume=pos,
                                 family=lambda ob, cls=cls: "%s: %s" % (cls, ob.meta["family"]))
+            # (5) wingbox: allowable of the upper-skin combinations (0 and 3) is strength_factor_for_upper_skin * yield, i.e.
+            # the reported value is stress / factor; and the closed form for uniform axial strain
+            if kind == "wingbox":
+                Em = S(s["E"])
+                for tf in (0.75, 1.25):
+                    sT = dict(s, strength_factor_for_upper_skin=tf)
+                    scT = SymComp(mod, cls, surface=sT)
+                    vT = scT.sym1(ins)["vonmises"]
+                    obs = []
+                    for e in range(ny - 1):
+                        for c in range(4):
+                            fac = S(tf) if c in (0, 3) else ONE
+                            obs.append(oblig.Ob("factor %g vm[%d,%d]" % (tf, e, c), lhs=vT[e, c] * fac, rhs=vm[e, c], assume=pos,
+                                                meta={"family": "upper-skin combinations are stress / strength factor, the others do not depend on it", "idx": [e, c], "tf": tf}))
+                    eps = var("eps")
+                    mp = {}
+                    for j in range(ny):
+                        for c in range(3):
+                            mp["disp[%d,%d]" % (j, c)] = eps * (nodes[j, c] - nodes[0, c])
+                            mp["disp[%d,%d]" % (j, 3 + c)] = ZERO
+                    # uniform stretching of a *straight* beam: nodes on one line (node j = node 0 + s_j d)
+                    if ny == 2:
+                        va = subst_arr(vT, mp)
+                        for c in range(4):
+                            fac = S(tf) if c in (0, 3) else ONE
+                            obs.append(oblig.Ob("axial strain %g vm[0,%d]" % (tf, c), lhs=va[0, c] * fac, rhs=Em * eps, assume=pos + [gt(eps, 0)],
+                                                meta={"family": "uniform axial strain gives E eps (over the strength factor for the upper skin)", "idx": [0, c], "tf": tf, "axial": True}))
+
+                    def rpT(ob, env, sT=sT, mp=mp):
+                        envf = model.FillEnv(env)
+                        ii = dict(ins)
+                        if ob.meta.get("axial"):
+                            ii["disp"] = subst_arr(disp, mp)
+                        vals = num_inputs(ii, envf)
+                        a = SymComp(mod, cls, surface=sT).real(vals)["vonmises"]
+                        i = tuple(ob.meta["idx"])
+                        fac = ob.meta["tf"] if i[1] in (0, 3) else 1.0
+                        ref = float(evalf([ob.rhs], envf)[ob.rhs.nid])
+                        return model.differs(a[i] * fac, ref, 1e-6), "strength factor %g: vonmises%s * factor = %.9g, expected %.9g" % (ob.meta["tf"], list(i), a[i] * fac, ref)
+
+                    run_obligations(rep, tag + " upper-skin strength factor %g" % tf, obs, timeout, levels=(1, 2), replay=rpT, relate=[], relate_assume=pos,
+                                    family=lambda ob, cls=cls: "%s: %s" % (cls, ob.meta["family"]), fixed={"eps": 0.001})
         # ---------------- FailureExact
         s = K.surface(2, ny, True)
         sc = SymComp("structures.failure_exact", "FailureExact", surface=s)
